@@ -121,6 +121,7 @@ impl<H: Hasher> BatchMerkleProof<H> {
     ///   tree for which this batch proof was generated.
     /// * List of indexes contains duplicates.
     /// * The proof does not resolve to a single root.
+    /// * The proof contains nodes which are not needed to compute the root.
     pub fn get_root(&self, indexes: &[usize]) -> Result<H::Digest, MerkleTreeError> {
         if indexes.is_empty() {
             return Err(MerkleTreeError::TooFewLeafIndexes);
@@ -248,6 +249,16 @@ impl<H: Hasher> BatchMerkleProof<H> {
                 i += 1;
             }
         }
+        // every node of the proof must have been used to compute the root; otherwise, nodes
+        // which are bound to nothing could be added to a valid proof without invalidating it
+        if proof_pointers
+            .iter()
+            .zip(self.nodes.iter())
+            .any(|(&used, nodes)| used != nodes.len())
+        {
+            return Err(MerkleTreeError::InvalidProof);
+        }
+
         v.remove(&1).ok_or(MerkleTreeError::InvalidProof)
     }
 
